@@ -410,6 +410,16 @@ def mk_srs(E):
                     'reactivestreams/subscriber.py::DefaultSubscriber.on_subscribe'], replay='k_stream_responder')
 def srs_frames(E):
     c, h, sid, pub, subscription, sync = mk_srs(E)
+    if E.path.choice(2, 'disposed-before-its-request-frame-was-processed') == 1:
+        # stop_all_streams / close while the application handler is still being awaited: there is nothing to cancel yet
+        try:
+            E.call(E.getattr(h, 'dispose'), [])
+        except PyExc as e:
+            E.prove('dispose:before_setup_never_raises', False)
+            return
+        E.cover('disposed-early')
+        E.prove('dispose:before_setup_touches_nothing', not c.log.calls)
+        return
     n = E.fresh_int('n', 1, 0x7FFFFFFF)
     f = frame(E, 'RequestStreamFrame', sid, initial_request_n=n)
     try:
@@ -451,7 +461,11 @@ def srs_frames(E):
             E.prove('CANCEL:producer_cancelled_exactly_once', [(x[0], x[1]) for x in new if x[0] is subscription] == [(subscription, 'cancel')])
         E.prove('CANCEL:stream_released_nothing_emitted', [x[2][0] for x in c.finishes()] == [sid] and not c.emissions())
     else:
-        E.call(E.getattr(h, 'dispose'), [])
+        try:
+            E.call(E.getattr(h, 'dispose'), [])
+        except PyExc as e:
+            E.prove('dispose:never_raises[publisher %s]' % ('subscribes synchronously' if sync else 'has not called on_subscribe yet'), False)
+            return
         new = c.log.calls[n0:]
         E.prove('dispose:cancels_subscription_iff_there_is_one',
                 [(x[0], x[1]) for x in new] == ([(subscription, 'cancel')] if sync else []))
